@@ -73,6 +73,29 @@ def tree_workload(rng, n_ops, mon):
                         exs.append(-rng.choice(exs))
                     elif exs and r < 0.85:
                         exs.append(rng.choice(exs) / rng.choice([x for x in SCALARS if x != 0]))
+                    elif r < 0.90:
+                        # augmented assignments: must rebind, never alter the object that was bound before
+                        if exs and rng.random() < 0.6:
+                            old = rng.choice(exs)
+                            b = rng.choice(exs) if rng.random() < 0.6 else rng.choice(SCALARS)
+                            snap, want = mon.snap(old), mon.den(old) + mon.den(b)
+                            new = old
+                            new += b
+                            mag = 1.0 + abs(want)
+                        else:
+                            old = rng.choice(pts)
+                            b = rng.choice(pts)
+                            snap, want = mon.snap(old), mon.den(old) - mon.den(b)
+                            new = old
+                            new -= b
+                            mag = 1.0 + float(abs(want).max())
+                        mon.count += 1
+                        mon.by_op["augmented_assignment"] = mon.by_op.get("augmented_assignment", 0) + 1
+                        if not mon.same_snap(snap, mon.snap(old)) or new is old:
+                            mon._viol("operand_mutated:augmented_assignment", "an augmented assignment (+=, -=) altered the object bound before", "iadd", old, b)
+                        elif not mon._close(mon.den(new), want, mag):
+                            mon._viol("wrong_denotation:augmented_assignment", "augmented assignment denotes something else", "iadd", old, b)
+                        (exs if hasattr(new, "counter") and type(new).__name__ == "Expression" else pts).append(new)
                     elif exs:
                         a = rng.choice(exs)
                         b = rng.choice(exs) if rng.random() < 0.6 else rng.choice(SCALARS)
